@@ -170,6 +170,7 @@ func vNewWorld() *vWorld {
 	w.pm = &PolicyManager{ipsetHandle: w.ips, iptableHandle: w.ipt, hostName: "node1",
 		podLister: vPodLister{c: c}, namespaceLister: vNamespaceLister{c: c}, policyLister: vPolicyLister{c: c}}
 	w.pm.podInformerOnce.Do(func() {}) // the pod informer factory (client-go machinery) is outside the harness
+	w.pm.podCachedInformer = vSyncedInformer{}
 	return w
 }
 
@@ -246,14 +247,10 @@ func vAnyPolicy(name string) *networkv1.NetworkPolicy {
 	return np
 }
 
+// syncAll is one full synchronisation: PolicyManager.Run itself (the pod informer is a stub that reports synced, so
+// syncPods lists the pods through the lister).
 func (w *vWorld) syncAll() {
-	w.pm.syncNetworkPolices()
-	w.pm.syncNetworkPolicyRules()
-	for _, pod := range w.c.pods {
-		if pod.Spec.NodeName == "node1" {
-			_ = w.pm.SyncPodChains(pod)
-		}
-	}
+	w.pm.Run()
 }
 
 func (w *vWorld) dumpFilter() string {
